@@ -584,6 +584,17 @@ func (g *gen) genPkg(pkg *Pkg, earlier []*Pkg) {
 			xf.Decls = append(xf.Decls, fd)
 		}
 		g.inXTest = false
+		// the external test package may dot-import the package under test (a common idiom),
+		// unless one of its helpers carries a name that package exports
+		clash := false
+		for _, d := range xf.Decls {
+			if fd, ok := d.(*FuncDecl); ok && !strings.HasPrefix(fd.Name, "X") {
+				clash = true
+			}
+		}
+		if !clash && g.chance("xtestDotImport", 35) {
+			xf.DotImport = pkg
+		}
 		pkg.Files = append(pkg.Files, xf)
 	}
 }
